@@ -6,6 +6,7 @@ import (
 	"fmt"
 	"math/rand"
 	"net/http"
+	"net/url"
 	"strings"
 
 	"github.com/getkin/kin-openapi/openapi3"
@@ -145,6 +146,8 @@ func c05Shapes() []c05shape {
 		{Name: "string", Kind: "prim", Schema: strS, Values: []any{"abc", "a1", "Hello", "x-y_z", "123", "true", "p", "role"}},
 		{Name: "string-needing-percent-encoding", Kind: "prim", Escape: true, Schema: strS, Values: []any{"a b", "50%", "caf\u00e9", "x#y?z"}},
 		{Name: "string-enum-needing-percent-encoding", Kind: "prim", Escape: true, Schema: gen.S{"type": "string", "enum": gen.Arr("a b", "x/y")}, Values: []any{"a b", "x/y", "a%20b"}},
+		{Name: "integer-with-default", Kind: "prim", Schema: gen.S{"type": "integer", "default": 7.0, "maximum": 9.0}, Values: []any{5.0, 10.0}},
+		{Name: "array-with-default", Kind: "array", Schema: gen.S{"type": "array", "items": gen.S{"type": "string"}, "default": gen.Arr("d"), "maxItems": 2.0}, Values: []any{gen.Arr("x"), gen.Arr("x", "y", "z")}},
 		{Name: "string-constrained", Kind: "prim", Schema: gen.S{"type": "string", "minLength": 2.0, "maxLength": 4.0, "pattern": "^[a-z]+$"}, Values: []any{"a", "ab", "abcd", "abcde", "AB", "a1"}},
 		{Name: "string-enum", Kind: "prim", Schema: gen.S{"type": "string", "enum": gen.Arr("red", "green")}, Values: []any{"red", "green", "blue"}},
 		{Name: "integer-enum", Kind: "prim", Schema: gen.S{"type": "integer", "enum": gen.Arr(1.0, 2.0)}, Values: []any{1.0, 2.0, 3.0}},
@@ -194,7 +197,7 @@ type c05Witness struct {
 func init() {
 	core.Register(&core.Check{
 		ID:   "C05",
-		Rule: "cells: every (in, style, explode) with style/explode given or omitted (defaults) that Parameter.Validate accepts and for which the specification defines the serialisation of the value kind; shapes: integer/int32/number/boolean/string with and without constraints, enum, allOf/oneOf/anyOf wrappers, arrays of each primitive with size/unique constraints, flat objects (several property orders), nested objects/arrays for deepObject; values: boundary and ordinary values from alphabets that exclude the cell's delimiters (empty strings and empty arrays excluded: their serialisation is undefined); presence: present / absent x required / optional; plus wrong-lexical-class texts serialised by the same rules. Each case runs the real router, the decode hook and ValidateParameter, then ValidateRequest on an operation that inherits the same parameter from its path item while declaring a same-named parameter in another location: the two verdicts must agree. Parameters defined by content (application/json) in the four locations: integer/object/array content schemas x required x absent / present-valid / present-violating. Distinct = (cell, shape, value, presence, required); non-trivial = value present (decode inverse asserted) or absent (missing/optional asserted).",
+		Rule: "cells: every (in, style, explode) with style/explode given or omitted (defaults) that Parameter.Validate accepts and for which the specification defines the serialisation of the value kind; shapes: integer/int32/number/boolean/string with and without constraints, enum, allOf/oneOf/anyOf wrappers, arrays of each primitive with size/unique constraints, flat objects (several property orders), nested objects/arrays for deepObject; values: boundary and ordinary values from alphabets that exclude the cell's delimiters (empty strings and empty arrays excluded: their serialisation is undefined); presence: present / absent x required / optional; plus wrong-lexical-class texts serialised by the same rules; header names in canonical, lower-case and mixed spelling; shapes with a schema default (an absent required parameter is still reported missing); query parameters of non-string type sent with an empty value. Each case runs the real router, the decode hook and ValidateParameter, then ValidateRequest on an operation that inherits the same parameter from its path item while declaring a same-named parameter in another location: the two verdicts must agree. Parameters defined by content (application/json) in the four locations: integer/object/array content schemas x required x absent / present-valid / present-violating. Distinct = (cell, shape, value, presence, required); non-trivial = value present (decode inverse asserted) or absent (missing/optional asserted).",
 		Assumptions: []string{
 			"gen/style.go is a correct reading of the OAS 3.0.3 style table",
 			"lenient spellings the decoder accepts (hex/octal integers, 't'/'1' booleans) are not judged; only texts of the wrong lexical class are required to be rejected",
@@ -230,6 +233,9 @@ func runC05(c *core.Ctx) {
 				if cell.In == "query" {
 					names = []string{"", "p.q", "$p", "p(1"}
 				}
+				if cell.In == "header" {
+					names = []string{"", "x-lower-case-name", "ETag"} // header names are case-insensitive; net/http stores them canonically
+				}
 				for _, qn := range names {
 					if c.Mine(idx) {
 						c05Group(c, cell, sh, required, qn)
@@ -246,7 +252,7 @@ func c05Param(cell c05cell, sh c05shape, required bool, qname string) (gen.S, st
 	if cell.In == "header" {
 		name = "X-Param"
 	}
-	if cell.In == "query" && qname != "" {
+	if (cell.In == "query" || cell.In == "header") && qname != "" {
 		name = qname
 	}
 	p := gen.S{"name": name, "in": cell.In, "schema": sh.Schema}
@@ -492,6 +498,33 @@ func c05Group(c *core.Ctx, cell c05cell, sh c05shape, required bool, qname strin
 	// structurally malformed texts: must be rejected
 	for _, g := range c05Garbage(cell, sh, name) {
 		c05RunGarbage(c, cell, sh, required, router, kparam, name, g)
+	}
+	// a query parameter sent with an empty value while allowEmptyValue is not set: not a value of a non-string type, and
+	// OAS 3.0 forbids it outright ("allowEmptyValue ... default false"); it must not pass as if the parameter were absent
+	_, hasDefault := sh.Schema["default"]
+	if cell.In == "query" && sh.Kind == "prim" && sh.Schema["type"] != "string" && sh.Schema["type"] != nil && !hasDefault { // (with a default, an empty value is read as "not supplied": no verdict)
+		for _, target := range []string{"http://h.t/q?" + url.QueryEscape(name) + "=", "http://h.t/q?" + url.QueryEscape(name), "http://h.t/q?zz=1&" + url.QueryEscape(name) + "=&pp=2"} {
+			req := newReq("GET", target, nil, nil)
+			desc := fmt.Sprintf("%s name=%s %s required=%v sent with an empty value: %s", cell, name, sh.Name, required, target)
+			c.Begin(desc)
+			in, err := reqInput(router, req, &openapi3filter.Options{})
+			if err != nil {
+				continue
+			}
+			var verr error
+			c.Eval()
+			if pi := core.Guard(func() { verr = openapi3filter.ValidateParameter(bgCtx, in, kparam) }); pi != nil {
+				c.Violate(core.PanicFeatures(pi), c05Witness{Cell: cell.String(), Shape: sh.Name, Present: true, Required: required, Request: desc, Got: pi.Value}, pi.Stack)
+				continue
+			}
+			c.Distinct(desc)
+			c.Cover("classes", "query-empty-value")
+			if verr == nil {
+				style, explode := cell.eff()
+				c.Violate(map[string]string{"kind": "empty_value_accepted", "in": cell.In, "style": style, "explode": fmt.Sprint(explode), "shape": sh.Kind},
+					c05Witness{Cell: cell.String(), Shape: sh.Name, Present: true, Required: required, Request: desc, Got: "nil"}, desc+"\naccepted")
+			}
+		}
 	}
 }
 
